@@ -1809,7 +1809,6 @@ def _sensor_acc(
   # In:
   sensor_contact_nmatch_in: wp.array2d[int],
   sensor_contact_matchid_in: wp.array3d[int],
-  sensor_contact_direction_in: wp.array3d[float],
   # Data out:
   sensordata_out: wp.array2d[float],
 ):
@@ -1875,8 +1874,9 @@ def _sensor_acc(
       total_force_magnitude = float(0.0)
 
       for i in range(nmatch):
-        cid = sensor_contact_matchid_in[worldid, contactsensorid, i]
-        dir = sensor_contact_direction_in[worldid, contactsensorid, i]
+        matchid = sensor_contact_matchid_in[worldid, contactsensorid, i]
+        cid = matchid // 2
+        dir = 1.0 - 2.0 * float(matchid % 2)
 
         contact_forcetorque = support.contact_force_fn(
           opt_cone,
@@ -1959,10 +1959,11 @@ def _sensor_acc(
       nslots = wp.min(nmatch, num)
       for i in range(nslots):
         # sorted contact id
-        cid = sensor_contact_matchid_in[worldid, contactsensorid, i]
+        matchid = sensor_contact_matchid_in[worldid, contactsensorid, i]
+        cid = matchid // 2
 
         # contact direction
-        dir = sensor_contact_direction_in[worldid, contactsensorid, i]
+        dir = 1.0 - 2.0 * float(matchid % 2)
 
         adr_slot = adr + i * size
 
@@ -2388,7 +2389,6 @@ def _contact_match(
   sensor_contact_nmatch_out: wp.array2d[int],
   sensor_contact_matchid_out: wp.array3d[int],
   sensor_contact_criteria_out: wp.array3d[float],
-  sensor_contact_direction_out: wp.array3d[float],
 ):
   contactsensorid, contactid = wp.tid()
   sensorid = sensor_contact_adr[contactsensorid]
@@ -2468,7 +2468,11 @@ def _contact_match(
     wp.atomic_or(overflow_out, worldid, OverflowType.CONTACT_MATCH)
     return
 
-  sensor_contact_matchid_out[worldid, contactsensorid, contactmatchid] = contactid
+  # the direction travels with the contact id (sorting permutes this array only): 2 * contactid + (1 if flipped)
+  flipped = int(0)
+  if dir < 0.0:
+    flipped = int(1)
+  sensor_contact_matchid_out[worldid, contactsensorid, contactmatchid] = 2 * contactid + flipped
 
   if reduce == 1:  # mindist
     sensor_contact_criteria_out[worldid, contactsensorid, contactmatchid] = contact_dist_in[contactid]
@@ -2492,8 +2496,6 @@ def _contact_match(
     )
     sensor_contact_criteria_out[worldid, contactsensorid, contactmatchid] = -force_magnitude
 
-  # contact direction
-  sensor_contact_direction_out[worldid, contactsensorid, contactmatchid] = dir
 
 
 @cache_kernel
@@ -2644,7 +2646,6 @@ def sensor_acc(m: Model, d: Data):
 
   sensor_contact_nmatch = wp.empty((d.nworld, m.nsensorcontact), dtype=int)
   sensor_contact_matchid = wp.empty((d.nworld, m.nsensorcontact, m.opt.contact_sensor_maxmatch), dtype=int)
-  sensor_contact_direction = wp.empty((d.nworld, m.nsensorcontact, m.opt.contact_sensor_maxmatch), dtype=float)
   if m.nsensorcontact:
     sensor_contact_criteria = wp.empty((d.nworld, m.nsensorcontact, m.opt.contact_sensor_maxmatch), dtype=float)
     # TODO(team): fill_ operations in one kernel?
@@ -2685,7 +2686,7 @@ def sensor_acc(m: Model, d: Data):
         d.njmax,
         d.nacon,
       ],
-      outputs=[d.overflow, sensor_contact_nmatch, sensor_contact_matchid, sensor_contact_criteria, sensor_contact_direction],
+      outputs=[d.overflow, sensor_contact_nmatch, sensor_contact_matchid, sensor_contact_criteria],
     )
 
     # sorting
@@ -2744,7 +2745,6 @@ def sensor_acc(m: Model, d: Data):
       d.nacon,
       sensor_contact_nmatch,
       sensor_contact_matchid,
-      sensor_contact_direction,
     ],
     outputs=[d.sensordata],
   )
